@@ -225,6 +225,8 @@ FUNCS = {
 MALFORMED = {
     "unbalanced-open": "{{(1 + [[0]]}}", "unbalanced-close": "{{1 + [[0]])}}", "unknown-function": "{{frobnicate([[0]])}}", "arity-abs": "{{abs([[0]], 2)}}", "arity-pow": "{{pow([[0]])}}",
     "arity-clamp": "{{clamp([[0]], 1)}}", "undefined-var": "{{$nope + [[0]]}}", "dangling-op": "{{[[0]] +}}", "double-op": "{{[[0]] * / 2}}", "empty-parens": "{{[[0]] + ()}}",
+    "call-unclosed-at-end": "{{max(3, 2 + [[0]]}}", "call-unclosed-abs": "{{abs([[0]]}}", "call-unclosed-nested": "{{1 + max(2, abs([[0]])}}", "call-unclosed-empty": "{{random(}}",
+    "call-extra-close": "{{abs([[0]]))}}", "call-missing-comma": "{{max(1 [[0]])}}", "call-trailing-comma": "{{max([[0]],)}}", "only-open": "{{(}}", "nested-unclosed": "{{((1 + [[0]])}}",
     "circular": None, "self-ref": None, "trailing": "{{[[0]] 2}}", "arity-mix": "{{mix([[0]], 1)}}", "select-range": "{{select(5, [[0]], 1)}}",
 }
 # results are printed with at most three decimals, without trailing zeros, integers without a fraction (property C14 via C09:
